@@ -107,9 +107,11 @@ func (vfs *BasePathFS) ToBasePath(path string) string {
 	}
 
 	if vfs.IsAbs(path) {
+		// The path is cleaned first: its ".." elements must not climb above the base path.
+		path = vfs.Clean(path)
 		vl := avfs.VolumeNameLen(vfs, path)
 
-		return vfs.basePath + path[vl:]
+		return vfs.Join(vfs.basePath, path[vl:])
 	}
 
 	return path
